@@ -9,7 +9,7 @@ META = {
             '1-6 states (epsilon cycles, dead ends, F empty/full, empty alphabet, plain dict / defaultdict); result compared with '
             'the Lean model (exact, names included) and checked directly: valid total DFA, same alphabet, language equal (exact '
             'product BFS, all word lengths), q0 = closure name, every state reachable; non-trivial = NFA with an epsilon move and '
-            '>=2 subset states; distinct by content',
+            '>=2 subset states; distinct by content; also NFAs with 13-15 states whose subsets share their 12 smallest names, unusual state names (\'\', \'p,q\', \'{p,q}\': the recorded name-collision finding is decided per case), in-place-edit history (determinise, edit delta, determinise again)',
     'assumptions': ['NFA.valid (constructor)', 'print_state_set is injective on the reachable subsets (decided per case by the reference; a case where the set notation itself merges two subsets is the recorded finding nfa2dfa-subset-name-collision)'],
     'trusted_base': ['Spec: Gamba/Spec/Automata.lean'],
 }
